@@ -330,6 +330,8 @@ type c13Resp struct {
 }
 
 type c13Attempt struct {
+	conn    int    // which accepted connection carried it
+	path    string // request target without the query
 	head    string // request head as received, incl. the blank line
 	wire    string // request body as received (chunk framing included)
 	payload string // request body decoded
@@ -342,6 +344,7 @@ type c13Peer struct {
 	hits     map[string]int
 	captured []c13Attempt
 	conns    []net.Conn
+	connSeq  int
 	busy     int // requests whose head was read and whose capture is not recorded yet
 }
 
@@ -417,6 +420,10 @@ func (p *c13Peer) next(path string) (c13Resp, bool) {
 
 func (p *c13Peer) serve(c net.Conn) {
 	defer c.Close()
+	p.mu.Lock()
+	p.connSeq++
+	connID := p.connSeq
+	p.mu.Unlock()
 	br := bufio.NewReaderSize(c, 64<<10)
 	for {
 		var head bytes.Buffer
@@ -458,7 +465,7 @@ func (p *c13Peer) serve(c net.Conn) {
 		if !ok {
 			script = c13Resp{raw: "HTTP/1.1 599 no script\r\nContent-Length: 0\r\n\r\n"}
 		}
-		att := c13Attempt{head: hs}
+		att := c13Attempt{head: hs, conn: connID, path: path}
 		fail := func() {
 			p.mu.Lock()
 			p.busy--
